@@ -28,7 +28,7 @@ ASSUME = ["TLC and the CommunityModules JSON reader are correct", "harness/cl_in
 
 def c01(tier, seed):
     quick = tier == "quick"
-    n = 4 if quick else 5
+    n = 5 if quick else 6
     models = [
         {"module": "CLImpl", "tag": "flat%d" % n, "constants": consts(n, 1, nest=set()), "invariants": INV},
         {"module": "CLImpl", "tag": "util3", "constants": consts(3, 1, ops={"a", "p", "i", "r", "v"} | UTIL, nest=set()), "invariants": INV},
@@ -72,7 +72,8 @@ def c19(tier, seed):
     quick = tier == "quick"
     ops = {"a", "i", "r", "v", "o"} if quick else {"a", "p", "i", "r", "v", "o", "f"}
     models = [{"module": "CLImpl", "tag": "wrap2", "constants": consts(3 if quick else 4, 2, maxgen=2, dist=[0, 1, 2], ops=ops), "invariants": INV, "heap": "16g"},
-              {"module": "CLImpl", "tag": "wrap3-2lists", "constants": consts(3, 1, maxgen=3, lists=2, dist=[0, 1, 2, 3], ops={"a", "r", "v", "cc", "ma", "s", "mc"}), "invariants": INV}]
+              {"module": "CLImpl", "tag": "wrap-2lists", "constants": consts(3, 1, maxgen=2 if quick else 3, lists=2, dist=[0, 1, 2] if quick else [0, 1, 2, 3],
+                                                                         ops={"a", "r", "v", "cc", "ma", "s"} if quick else {"a", "r", "v", "cc", "ma", "s", "mc", "ca"}), "invariants": INV}]
     worlds = [world("cl_single_fn", 0, 0), world("cl_multi_cb", 1, 1, fraction=0.15, fill="0xFF")]
     return {"interp": "harness/cl_interp.cpp", "trace_module": "TraceCL", "models": models, "worlds": worlds,
             "nontrivial_key": "near_wrap",
